@@ -1,14 +1,15 @@
-import FluteModel.ObjRecv
+import FluteModel.Lemmas.ObjRecvCache
 /-
   Object-level part of C17 (receiver memory bounded by configuration): the two limit checks of ObjectReceiver.
   Owner of C17 (props.d, session level): agent recv.
 
   Aimed at (DESIGN §5 C17): `cache_bounded` / `blocks_bounded` as invariants over ALL histories:
      Σ cached datagram bytes ≤ max_size + one datagram;   Σ allocated block bytes ≤ max_size + 2 blocks.
-  Proved here: the step lemmas that carry those invariants (every way the two quantities can grow), for ALL states and ALL
-  packets - named `_partial` because the induction over histories (all other model functions leave `(cache, cache_size)`
-  unchanged or reset both; `total_allocated_blocks_size` = Σ block_size of the allocated blocks) is not done in Lean;
-  it is validated by the `probe` observations of engine orecv (cache bytes, cache_size, nb_allocated_blocks,
+  Proved here: `cache_bounded` as an invariant over ALL histories (Lemmas/ObjRecvCache.lean: every model function leaves
+  `(cache, cache_size)` unchanged or resets both, the replay loop only shrinks the cache and empties it); for the blocks the step
+  lemmas `blocks_bounded_partial` / `blocks_over_limit_rejected` in the honest form the code supports (D31: the first two blocks
+  are exempt from the limit) - the induction `total_allocated_blocks_size = Σ block_size of the allocated blocks` is not done in Lean;
+  both are validated by the `probe` observations of engine orecv (cache bytes, cache_size, nb_allocated_blocks,
   total_allocated_blocks_size of the real Receiver vs model after every datagram, families limits/mutate/random; oracle classes
   C17:cache-over-limit, C17:blocks-over-limit).  D11 (cache_size never updated) was found by that oracle and repaired (f28d140);
   the model below is the repaired code.
@@ -16,7 +17,24 @@ import FluteModel.ObjRecv
 namespace Flute.Props.C17.Obj
 open Flute Flute.FecDec Flute.ObjRecv
 
-def cacheBytes (st : St) : Nat := (st.cache.map (·.dataLen)).sum
+/-- **cache_bounded, over ALL histories** of arbitrary parsed packets and FDT attachments, all environments: with `M` an upper
+    bound of the datagram lengths pushed, the bytes held in the packet cache never exceed the accounted `cache_size`, and that is
+    0 or below `max_size + M` - i.e. cached bytes ≤ configured size + one packet.  (A packet offered to a full cache makes
+    `cache` return Err - `cache_full_rejects` - and `push` then calls `error()`: the object is abandoned and counted in error.) -/
+theorem cache_bounded (P : Params) (toi maxSize M : Nat) (ops : List Op) (st' : St)
+    (hops : OpsLe M ops) (h : run P (St.new toi maxSize) ops = .ok st') :
+    cacheBytes st' ≤ st'.cacheSize ∧ (st'.cacheSize = 0 ∨ st'.cacheSize < maxSize + M) ∧
+    (cacheBytes st' = 0 ∨ cacheBytes st' < maxSize + M) := by
+  have h0 : CB M (St.new toi maxSize) := ⟨by simp [cacheBytes, St.new], .inl rfl⟩
+  have := cb_run P M _ ops h0 hops h
+  have hm : st'.maxSize = maxSize := this.2
+  have hb := this.1.bound
+  rw [hm] at hb
+  refine ⟨this.1.acc, hb, ?_⟩
+  have := this.1.acc
+  cases hb with
+  | inl z => left; omega
+  | inr z => right; omega
 
 /-- `cache(pkt)` accepts a datagram only while the accounted size is below the limit, and accounts it:
     if `cache_bytes ≤ cache_size` held before, it holds after, and the new total is below `max_size + datagram length`. -/
@@ -88,7 +106,8 @@ theorem blocks_over_limit_rejected (P : Params) (st : St) (o : Oti) (tl : Nat) (
     (h : allocBlock P st o tl pid blk = .ok (st', r)) : r = none ∧ st'.state = .error := by
   unfold allocBlock at h
   rw [if_neg (by simp [hinit])] at h
-  simp only [hsbl] at h
+  have hk : sblOf st pid = l := by unfold sblOf; rw [hsbl]
+  simp only [hsbl, hk] at h
   rw [if_neg (by omega), if_pos ⟨hn, hover⟩] at h
   simp at h
   exact ⟨h.2.symm, by rw [← h.1]⟩
